@@ -31,7 +31,7 @@ func runC13(c *eng.Ctx) {
 		Fields: []string{"MemorySequencer.counter"},
 		Pkg:    "weed/sequence",
 		Exempt: map[string]string{
-			"weed/sequence.NewMemorySequencer":       "constructor",
+			"weed/sequence.NewMemorySequencer":      "constructor",
 			"(*weed/sequence.MemorySequencer).Peek": "status-page getter, not on the assignment path",
 		},
 	})
